@@ -112,6 +112,15 @@ func specialYears() []int {
 	for y := 235; y <= 241; y++ {
 		ys = append(ys, y)
 	}
+	// years with a leap 11th / 12th month (the override tables of LunarYear): the first and last three of each table and the
+	// year after each (their last months spill into it)
+	for _, tb := range [][]int{calendar.LEAP_11, calendar.LEAP_12} {
+		for i, y := range tb {
+			if (i < 3 || i >= len(tb)-3) && y >= 1 && y+1 <= 9998 {
+				ys = append(ys, y, y+1)
+			}
+		}
+	}
 	return ys
 }
 
